@@ -389,18 +389,12 @@ func c10(c *Ctx) {
 					continue
 				}
 				oke := okEdges(cs[0])
+				// path-sensitive: a failed step clears a flag / appends a warning that the
+				// store's guard tests later
+				crossed, w := cfgx.MustCross(store, oke, c.posf())
 				bad := -1
-				for i, p := range paths {
-					if !p.CrossesAny(oke) {
-						bad = i
-						break
-					}
-				}
-				var w []string
-				if bad >= 0 {
-					for _, b := range paths[bad] {
-						w = append(w, "b"+itoa(b.Index)+" "+c.pos(firstPos(b)))
-					}
+				if !crossed {
+					bad = 0
 				}
 				c.R.Check(bad < 0 && len(oke) > 0 && ok, load.FuncName(pt)+": cds[i]=r needs ok("+stp.name+")", c.pos(store.Pos()), "every feasible path ("+itoa(len(paths))+") to the store crosses the success edge", "a feasible path stores the object for application although "+stp.name+" failed", w...)
 				// on the rendered object
